@@ -267,8 +267,10 @@ class Run:
             self.count("further inputs of an already reported signature")
             return
         self.reported.add(signature)
+        kind = case.get("kind")
         obj = dict(property=PID, signature=signature, what=what, fmt=case.get("fmt"), hex=case.get("hex"),
-                   message=case.get("msg") if case.get("msg") not in (None, "-") else None,
+                   message=case.get("msg") if (kind in ("G", "Q", "S") and case.get("msg") not in (None, "-")) else None,
+                   value=case.get("msg") if (kind == "I" and not str(case.get("msg")).startswith("nested")) else None,
                    implementation=dict(Deserialize=case.get("D"), DeserializeDataItem=case.get("V")),
                    seed=common.seed(), repo=common.REPO)
         if extra:
@@ -690,6 +692,13 @@ def replay_main(path, drive, model):
             print("  round trip equal (monitor): %s" % rt)
             if rt != "true":
                 bad = True
+        if obj.get("value"):
+            vk, vp = go_class(r["V"])
+            print("  value: %s" % obj["value"][:400])
+            rt = run_model(model, ["rtv %s %s ; %s" % (fmt, obj["value"], vp)])[0] if vk == "ok" else "false"
+            print("  value round trip equal (monitor): %s" % rt)
+            if rt != "true":
+                bad = True
         mk, mp = model_class(ans[0])
         if (mk == "ok" and not (gk == "ok" and gp == mp)) or (mk == "err" and gk != "err"):
             print("  model and implementation DISAGREE")
@@ -904,7 +913,7 @@ def main(tier, replay):
     coverage = dict(
         obligations=len(r["obligations"]), discharged=len(r["discharged"]),
         obligation_names=r["obligations"], undischarged=undischarged,
-        checker_cmd="make -f Makefile.coq Props/C14.vo Codec/C14Conf.vo && coqc -Q . Nexus Props/C14.v (in /verif/coq; full .vo build)",
+        checker_cmd="make -f Makefile.coq Props/C14.vo Codec/C14Conf.vo Codec/C14ConfShape.vo Codec/C14ConfWire.vo && coqc -Q . Nexus Props/C14.v && coqc -Q . Nexus cases/cases_c14.v (in /verif/coq; full .vo build; thorough: coqchk -silent -o Nexus.Props.C14)",
         trusted_base=trusted,
         evaluations=run.evaluations, distinct_nontrivial=len(run.distinct),
         rule="an evaluation is one (format, byte string) run through the implementation and the extracted model; distinct AND non-trivial = distinct (format, canonical decoded message or value) pairs for which Deserialize/DeserializeDataItem or the model produced a message/value (error-only inputs are not counted)",
